@@ -163,6 +163,7 @@ class RR:
         # queries in QF_NRA); n is any real with x - 1 < n <= x
         ctx.assume(n <= self.v, "")
         ctx.assume(self.v < n + 1, "")
+        ctx.soft.append(z3.IsInt(n.re.z3()))
         return IntRR(n)
 
 
